@@ -58,6 +58,41 @@ def run(F, R):
             R.bad("C14.R2", key + ":unchecked-index", "assignment.per_node indexed without a range check", g.loc(c.bb)); continue
         ok, why = _checked(F, g, c, depth=0)
         R.check(ok, "C14.R2", key + "->ok_or->?", why, g.loc(c.bb), dict(site=str(c)))
+        if last in ("get", "get_mut", "nth") and len(c.args) >= 2:
+            # the index is a parameter/field value as received: arithmetic on it (wrap-around, clamping) turns an
+            # out-of-range shard index into somebody else's shard instead of an error
+            arith = []
+            def src(k, x):
+                return None
+            seen_l, work = set(), [c.args[1]]
+            defs = g.defs()
+            while work:
+                o_ = work.pop()
+                if isinstance(o_, dict):
+                    continue
+                pl = op_place(o_) if (len(o_) > 1 and o_[1] == ":") else o_
+                if pl is None:
+                    continue
+                l = place_local(pl)
+                if l in seen_l:
+                    continue
+                seen_l.add(l)
+                for bb, kind, payload in defs.get(l, []):
+                    if kind == "call":
+                        nm = payload.name.rsplit("::", 1)[-1]
+                        if nm in ("min", "max", "clamp", "rem_euclid", "wrapping_sub", "saturating_sub", "checked_rem", "wrapping_rem"):
+                            arith.append(nm)
+                        elif nm in ("clone", "deref", "into", "from", "try_into", "unwrap", "branch"):
+                            work.extend(payload.args)
+                    else:
+                        dst, rv, line = payload
+                        if rv[0] == "bin":
+                            arith.append(rv[1])
+                        elif rv[0] in ("use",):
+                            work.append(rv[1])
+                        elif rv[0] in ("ref", "cast"):
+                            work.append(rv[2])
+            R.check(not arith, "C14.R2", key + ":index-as-received", f"the shard index is transformed ({sorted(set(arith))}) before the range-checked access: an out-of-range index silently selects another shard", g.loc(c.bb), dict())
 
     # ---- R3
     h = "distributed::server::fragment"
